@@ -162,6 +162,20 @@ CHECKS["C09"] = dict(
     note="One genuine defect found and fixed (loader rejected wrappings, fix c56108a). Exhaustive for 2x2 (3x3 over 0..1 "
          "thorough).")
 
+CHECKS["C20"] = dict(
+    category="model_checking", design_ref="DESIGN.md section 2 (C20)",
+    technique="transposition graph explored by TLC (graph distance = minimum number of swaps, tied to n - cycles); "
+              "zero-distance classes, representative indices and rank-flow clauses in TLA+; real instances and swap "
+              "distances validated against them",
+    text="MC_Swap.tla explores the transposition graph with an explicit swap counter; the least counter per pair is "
+         "the minimum number of transpositions and TLC checks it is never below n - cycles; every pair of the scope is "
+         "compared with the real swap_distance. Order1D.tla defines classes/representatives (first object at distance 0), "
+         "|i-j| distances and the statement's flow clauses (zero on diagonal and beyond the horizon by average rank, "
+         "equal for equal distances, monotone); Trace_Order judges real instances built from sequences with duplicates "
+         "and ties, float distances, several powers/horizons, and random permutation pairs up to length 30.",
+    note="Flow VALUES are not demanded (the statement is relational). Distances must be pseudo-metrics. Swap distance "
+         "exhaustive for n<=5 (6 thorough) plus identity-rooted n=7.")
+
 NOT_YET = {
 }
 
